@@ -729,6 +729,7 @@ static void sinks_setup(sinkset *ss, child_t *c, const char *so, const char *se)
         memset(ss->str[i], 'p', (size_t) ss->pre[i]);
         ss->str[i][ss->pre[i]] = 0;
         ss->orig[i] = ss->str[i];
+        wrap_heap_adopt(ss->str[i]);  // handed over: the sink may realloc or free it
       }
       ss->sk[i] = reproc_sink_string(&ss->str[i]);
     } else if (sp[0] == 'c') {
@@ -764,12 +765,7 @@ static void sinks_result(sinkset *ss, child_t *c, char *sres, size_t cap)
     snprintf(b, sizeof b, "%s[%d,%ld,%ld,%lld]", sres[0] ? "," : "", i, ss->pre[i], len, bad);
     if (strlen(sres) + strlen(b) + 1 < cap) strcat(sres, b);
     if (len > ss->pre[i]) c->rdoff[i + 1] += (uint64_t) (len - ss->pre[i]);
-    if (ss->str[i] && ss->str[i] == ss->orig[i]) {
-      free(ss->str[i]);  // never grown by the library: still the caller's own allocation
-      ss->str[i] = NULL;
-    } else {
-      ss->str[i] = reproc_free(ss->str[i]);
-    }
+    ss->str[i] = reproc_free(ss->str[i]);  // grown by the library or still the (adopted) original
   }
 }
 
@@ -1330,6 +1326,13 @@ static void run_script(void)
       int err = (int) nextlong(EIO);
       int f = fn ? wrap_fn_by_name(fn) : -1;
       if (f >= 0) wrap_add_fault(side, f, k, err);
+    } else if (!strcmp(t, "FR")) {
+      // FR fn k err : like F on the parent side, k counted from this point of the scenario
+      const char *fn = nexttok();
+      int k = (int) nextlong(0);
+      int err = (int) nextlong(EIO);
+      int f = fn ? wrap_fn_by_name(fn) : -1;
+      if (f >= 0) wrap_add_fault_rel(f, k, err);
     } else if (!strcmp(t, "N")) {
       int h = (int) nextlong(0);
       op_begin("N", h);
